@@ -19,8 +19,8 @@ INVARIANTS = {
 }
 PROPERTIES = {
     "C16": ["HandOutOnce"],
-    "C17": ["NeverFinished", "EligibleChannel", "PriorityFifo", "Final", "IdempotentAdd", "WaitExact"],
-    "C18": ["HandOutOnce", "NeverFinished", "Final", "RestartKeepsLive", "RestartKeepsJobs", "NoIdReuse", "WaitExact"],
+    "C17": ["NeverFinished", "FinishedNotRequeued", "EligibleChannel", "PriorityFifo", "Final", "IdempotentAdd", "WaitExact"],
+    "C18": ["HandOutOnce", "NeverFinished", "FinishedNotRequeued", "Final", "RestartKeepsLive", "RestartKeepsJobs", "NoIdReuse", "WaitExact"],
 }
 ALL_INV = sorted({x for v in INVARIANTS.values() for x in v})
 ALL_PROP = sorted({x for v in PROPERTIES.values() for x in v})
